@@ -28,9 +28,17 @@ for d in dirs:
             names = [b.local_name(i) for i in range(1, b.argc + 1)]
             if all(names):
                 params.setdefault(b.path, names)
+# field names of every production struct (non-pub fields may be renamed freely: a rename is recognised when the struct keeps its path,
+# its field count and every field's type in order)
+adts = {}
+for d in dirs:
+    PR = facts.Program(d, resolve_renames=False)
+    for pth, a in PR.adts.items():
+        if a["crate"] in facts.PRODUCTION_CRATES and a.get("kind") == "Struct" and len(a["variants"]) == 1:
+            adts.setdefault(pth, [[f["n"], f["ty"], f.get("vis")] for f in a["variants"][0]["fields"]])
 for a in anchors.values():
     # an anchor that exists in only some configurations (cfg-gated) is not "missing" in the others: rename resolution is applied
     # only to anchors present in every configuration
     a["everywhere"] = len(a.pop("configs")) == len(dirs)
-json.dump({"anchors": sorted(anchors.values(), key=lambda a: a['path']), "known_paths": sorted(known), "params": params}, open('/verif/rules/anchors.json', 'w'), indent=1)
+json.dump({"anchors": sorted(anchors.values(), key=lambda a: a['path']), "known_paths": sorted(known), "params": params, "adts": adts}, open('/verif/rules/anchors.json', 'w'), indent=1)
 print(len(anchors), 'anchors (%d in every configuration),' % sum(1 for a in anchors.values() if a["everywhere"]), len(known), 'known paths,', len(params), 'parameter lists')
